@@ -31,7 +31,7 @@ type FCCase struct {
 }
 
 const c14Rule = "operations Open(name), Close(i-th lent handle), Remove(name), Clear, SetCacheSize(n) on filecache.FileCache with initial capacity 0..3, over file names of which two are not in their cleaned spelling (doubled separator, ./ component); every Open is closed exactly once by the generator (the documented contract). " +
-	"Exhaustive part: every sequence over 2 names, capacities/resizes 0..2 up to depth 5 (quick) / 6 (thorough); random part: rapid sequences up to 60 calls over 3 names and capacities 0..3; concurrent part: goroutines opening/using/closing handles while another removes, clears and resizes; random and concurrent parts with and without an eviction callback (SetOnEvicted) installed. " +
+	"Exhaustive part: every sequence over 2 names, capacities/resizes 0..2 up to depth 5 (quick) / 6 (thorough); random part: rapid sequences up to 60 calls over 3 names and capacities 0..3; concurrent part: goroutines opening/using/closing handles while another removes, clears and resizes; many-holders part: short random sequences with one burst of 200..520 simultaneous holders of one name (counts around 256 and 512) followed by a removal, clear, resize or eviction; random and concurrent parts with and without an eviction callback (SetOnEvicted) installed. " +
 	"oracle after EVERY call: every lent handle still answers Stat (not closed); Close of a lent handle returns nil; open descriptors on the test files (/proc/self/fd) <= capacity + distinct lent handles; at the end, after releasing everything and Clear, no descriptor remains. " +
 	"non-trivial = an eviction/removal/clear/resize while >=1 handle is lent, after which the same name is opened again; distinct = distinct call sequence"
 
@@ -78,6 +78,7 @@ func (e *fcEnv) openFDs() int {
 
 type fcStats struct {
 	nontrivial bool
+	many       bool
 }
 
 func runFC(e *fcEnv, c FCCase) (st fcStats, v *Violation) {
@@ -141,6 +142,18 @@ func runFCInner(e *fcEnv, c FCCase) (st fcStats, v *Violation) {
 				st.nontrivial = true
 			}
 			lent = append(lent, lentH{f, n})
+		case "openmany":
+			// Many simultaneous holders of one name (hundreds of concurrent
+			// readers of one index file): A = name + 3*count.
+			n := op.A % 3 % c.Names
+			for k := 0; k < op.A/3; k++ {
+				f, err := fc.Open(e.names[n])
+				if err != nil {
+					return st, viol("open-error|open|"+errClass(err), i, "Open: %v", err)
+				}
+				lent = append(lent, lentH{f, n})
+			}
+			st.many = true
 		case "close":
 			if len(lent) == 0 {
 				continue
@@ -185,6 +198,9 @@ func runFCInner(e *fcEnv, c FCCase) (st fcStats, v *Violation) {
 		if err := fc.Close(l.f); err != nil {
 			return st, viol("close-of-lent-handle-failed|final|"+errClass(err), n, "Close of a lent handle returned %v", err)
 		}
+		if len(lent) > 64 && len(lent)%16 != 0 {
+			continue // many holders: look at every 16th step and at the last 64
+		}
 		if v := check(n, "final-close"); v != nil {
 			return st, v
 		}
@@ -214,6 +230,26 @@ func genFC(t *rapid.T) FCCase {
 		}
 		return op
 	}), 1, 60).Draw(t, "ops")
+	return c
+}
+
+// genFCMany: a short random sequence with one burst of 200..520 simultaneous
+// holders of one name in it (counts around the powers of two).
+func genFCMany(t *rapid.T) FCCase {
+	c := genFC(t)
+	if len(c.Ops) > 16 {
+		c.Ops = c.Ops[:16]
+	}
+	if c.Cap == 0 && weighted(t, "cap0", []int{1, 3}) == 1 {
+		c.Cap = rapid.IntRange(1, 3).Draw(t, "capmany")
+	}
+	count := []int{200, 254, 255, 256, 257, 300, 511, 512, 513, 520}[rapid.IntRange(0, 9).Draw(t, "holders")]
+	at := rapid.IntRange(0, len(c.Ops)).Draw(t, "manyAt")
+	many := FCOp{K: "openmany", A: rapid.IntRange(0, 2).Draw(t, "manyname") + 3*count}
+	disturb := FCOp{K: []string{"remove", "clear", "resize", "open"}[rapid.IntRange(0, 3).Draw(t, "disturb")], A: rapid.IntRange(0, 2).Draw(t, "disturbarg")}
+	ops := append([]FCOp{}, c.Ops[:at]...)
+	ops = append(ops, many, disturb)
+	c.Ops = append(ops, c.Ops[at:]...)
 	return c
 }
 
@@ -429,6 +465,26 @@ func TestC14(t *testing.T) {
 			rt.Fatalf("%v", v)
 		}
 	})
+	if t.Failed() {
+		return
+	}
+	// Many simultaneous holders of one name.
+	setRapidChecks(budget(160, 600))
+	rapid.Check(t, func(rt *rapid.T) {
+		if pastDeadline() {
+			ev.Skip()
+			return
+		}
+		c := genFCMany(rt)
+		st, v := runFC(e, c)
+		ev.Record(c, st.many, "many-holders")
+		if v != nil && ev.Report(v, c) {
+			rt.Fatalf("%v", v)
+		}
+	})
+	if t.Failed() {
+		return
+	}
 	// Concurrent part.
 	nConc := budget(40, 60)
 	for i := 0; i < nConc && !pastDeadline(); i++ {
